@@ -3,5 +3,5 @@ CONSTANTS
   Names = {"a", "b"}
   MaxItems = 5
   MaxDepth = 2
-  Kinds = {"fn", "fx", "ar", "blk", "forlet", "forvar", "catch", "cls", "cx"}
+  Kinds = {"fn", "fx", "ar", "blk", "forlet", "forvar", "forx", "catch", "cls", "cx"}
 CHECK_DEADLOCK FALSE
